@@ -47,6 +47,80 @@ pub broadcast axiom fn axiom_point_of_bytecode(b: ByteCode) ensures #[trigger] p
 pub broadcast axiom fn axiom_point_of_point(p: PreResolvedCodePoint) ensures #[trigger] point_of::<PreResolvedCodePoint>(p) == p;
 }
 pub use axp::point_of;
+
+// ---- the match expression ---------------------------------------------------------------------------------------------------------
+/// a pattern as a function of the tokens (its per-form clauses are proved on parse_match_pattern above)
+pub uninterp spec fn sp_pattern(toks: Seq<TokenWithLoc>, pos: nat, lbl: u32, bind: BindContext) -> Option<P<MatchPattern>>;
+pub struct Case { pub pcode: Seq<PreResolvedCodePoint>, pub ecode: Seq<PreResolvedCodePoint>, pub ast: AstNode<MatchCase> }
+pub struct CS { pub cases: Seq<Case>, pub details: Set<Seq<char>>, pub end: nat, pub lbl: u32, pub comma_seen: bool }
+/// `case` Pattern `:` Expr, separated by commas, up to the closing brace
+pub closed spec fn sp_cases_loop(toks: Seq<TokenWithLoc>, acc: CS, bind: BindContext) -> Option<CS>
+    decreases toks.len() - acc.end
+{
+    if acc.end < toks.len() && toks[acc.end as int].token is RBrace { Some(acc) }
+    else if !acc.comma_seen { None }
+    else if acc.end < toks.len() && toks[acc.end as int].token is Case {
+        match sp_pattern(toks, acc.end + 1, acc.lbl, bind) {
+            Some(p) => if p.end > acc.end && p.end < toks.len() && toks[p.end as int].token is Colon {
+                    match sp_expr(toks, p.end + 1, p.lbl) {
+                        Some(e) => if e.end > p.end && e.end <= toks.len() {
+                                let c = Case { pcode: code_of(p.node), ecode: seq![bc(ByteCode::Pop)] + code_of(e.node),
+                                               ast: mk_ast(MatchCase { pattern: p.ast, expr: Box::new(e.ast) }, hull(a_loc(p.ast), a_loc(e.ast))) };
+                                let comma = e.end < toks.len() && toks[e.end as int].token is Comma;
+                                sp_cases_loop(toks, CS { cases: acc.cases.push(c), details: acc.details + p.details + e.details,
+                                                         end: if comma { e.end + 1 } else { e.end }, lbl: e.lbl, comma_seen: comma }, bind)
+                            } else { None },
+                        None => None,
+                    }
+                } else { None },
+            None => None,
+        }
+    } else { None }
+}
+/// the first k cases: each tests a COPY of the scrutinee (DUP pattern JMPCOND false -> next case), and only the first matching arm runs:
+/// its code starts by dropping the scrutinee (POP, part of ecode) and ends by leaving the match (JMP end)
+pub open spec fn cases_code(cases: Seq<Case>, k: int, l_end: u32, l0: u32) -> Seq<PreResolvedCodePoint> decreases k {
+    if k <= 0 { Seq::empty() } else {
+        cases_code(cases, k - 1, l_end, l0) + seq![bc(ByteCode::Dup)] + cases[k - 1].pcode + seq![PreResolvedCodePoint::JmpCond { when: JmpWhen::False, label: (l0 + k - 1) as u32 }]
+            + cases[k - 1].ecode + seq![PreResolvedCodePoint::Jmp { label: l_end }, PreResolvedCodePoint::Label((l0 + k - 1) as u32)]
+    }
+}
+/// no case matched: drop the scrutinee, the result is null
+pub open spec fn match_code(cond: Seq<PreResolvedCodePoint>, cases: Seq<Case>, lbl: u32) -> Seq<PreResolvedCodePoint> {
+    cond + cases_code(cases, cases.len() as int, lbl, (lbl + 1) as u32) + seq![bc(ByteCode::Pop), bc(ByteCode::Push(CelValue::Null)), PreResolvedCodePoint::Label(lbl)]
+}
+pub open spec fn case_asts(cases: Seq<Case>) -> Seq<AstNode<MatchCase>> { cases.map_values(|c: Case| c.ast) }
+pub mod axv { use super::*; use vstd::prelude::*;
+pub uninterp spec fn vec_of_cases(s: Seq<AstNode<MatchCase>>) -> Vec<AstNode<MatchCase>>;
+/// ASSUMED: a Vec is determined by its elements
+pub broadcast axiom fn axiom_vec_of_cases(v: Vec<AstNode<MatchCase>>) ensures #[trigger] vec_of_cases(v@) == v;
+}
+pub use axv::vec_of_cases;
+/// what follows the `match` keyword:  Expr `{` cases `}`
+pub closed spec fn sp_match(toks: Seq<TokenWithLoc>, pos: nat, lbl: u32, bind: BindContext) -> Option<P<Expr>> {
+    match sp_expr(toks, pos, lbl) {
+        Some(c) => if c.end > pos && c.end < toks.len() && toks[c.end as int].token is LBrace {
+                match sp_cases_loop(toks, CS { cases: Seq::empty(), details: c.details, end: c.end + 1, lbl: c.lbl, comma_seen: true }, bind) {
+                    Some(cs) => if cs.end < toks.len() && cs.lbl as int + 1 + cs.cases.len() <= u32::MAX {
+                            Some(P { ast: mk_ast(Expr::Match { condition: Box::new(c.ast), cases: vec_of_cases(case_asts(cs.cases)) }, hull(a_loc(c.ast), toks[cs.end as int].loc)),
+                                     end: cs.end + 1, lbl: (cs.lbl + 1 + cs.cases.len()) as u32, details: cs.details,
+                                     node: SNode::Code(match_code(code_of(c.node), cs.cases, cs.lbl)) })
+                        } else { None },
+                    None => None,
+                }
+            } else { None },
+        None => None,
+    }
+}
+#[verifier::external_body] pub fn opt_token_is(a: Option<&Token>, b: &Token) -> (r: bool)
+    ensures
+        *b is Colon ==> r == (a is Some && *a->Some_0 is Colon),
+        *b is LBrace ==> r == (a is Some && *a->Some_0 is LBrace),
+        *b is RBrace ==> r == (a is Some && *a->Some_0 is RBrace),
+        *b is Case ==> r == (a is Some && *a->Some_0 is Case),
+        *b is Comma ==> r == (a is Some && *a->Some_0 is Comma),
+{ unimplemented!() }
+
 /// `i == "_"`: String == &str (std)
 #[verifier::external_body] pub fn string_is(a: &String, b: &str) -> (r: bool) ensures r == (a@ == b@) { unimplemented!() }
 
@@ -100,8 +174,74 @@ def pattern_contract(stub=False):
              props=PROPS + ('C01',))
 
 
-def build():
-    U = Unit('parser_match')
+MATCH_PROPS = ('C05', 'C10', 'C17', 'C02', 'C18')
+HERE_B = HERE + ', old(self).bindings'
+
+
+def match_contract():
+    NEQ = lambda v, k: (f'{v}.as_token() != Some(&Token::{k})', f'!opt_token_is({v}.as_token(), &Token::{k})', 'R2: derived PartialEq on Option<&Token> -> opt_token_is')
+    EQ = lambda v, k: (f'{v}.as_token() == Some(&Token::{k})', f'opt_token_is({v}.as_token(), &Token::{k})', 'R2: derived PartialEq on Option<&Token> -> opt_token_is')
+    STATE = 'CS { cases: cases0, details: node_details@, end: self.tokenizer.pos(), lbl: self.next_label, comma_seen: comma_seen }'
+    CS0 = 'CS { cases: Seq::empty(), details: c0.details, end: c0.end + 1, lbl: c0.lbl, comma_seen: true }'
+    return A(
+        ret='r', attrs=['#[verifier::exec_allows_no_decreases_clause]', '#[verifier::rlimit(200)]'], requires=[CURSOR],
+        ensures=[UNTOUCHED, result_clause(f'sp_match({HERE_B})', MATCH_PROPS)],
+        after={('stmt', 'let (condition_node, condition_ast) =', 0): 'let ghost c0 = P { ast: condition_ast, end: self.tokenizer.pos(), lbl: self.next_label, details: condition_node.details@, node: node_view(condition_node.inner) };',
+               ('stmt', 'let mut comma_seen =', 0): 'let ghost mut cases0: Seq<Case> = Seq::empty();',
+               ('stmt', 'let (pattern_prog, pattern_ast) =', 0): 'let ghost p1 = P { ast: pattern_ast, end: self.tokenizer.pos(), lbl: self.next_label, details: pattern_prog.details@, node: node_view(pattern_prog.inner) };',
+               ('stmt', 'let (expr_prog, expr_ast) =', 0): 'let ghost e1 = P { ast: expr_ast, end: self.tokenizer.pos(), lbl: self.next_label, details: expr_prog.details@, node: node_view(expr_prog.inner) };',
+               ('stmt', 'expressions.push(', 0): """proof {
+    cases0 = cases0.push(Case { pcode: code_of(p1.node), ecode: seq![bc(ByteCode::Pop)] + code_of(e1.node),
+                                ast: mk_ast(MatchCase { pattern: p1.ast, expr: Box::new(e1.ast) }, hull(a_loc(p1.ast), a_loc(e1.ast))) });
+}""",
+               ('stmt', 'let after_match_s_l =', 0): 'let ghost lbl1 = after_match_s_l; let ghost cond_code = node_bytecode@;'},
+        loops={0: dict(
+            invariant=[('token_stream_untouched', 'self.tokenizer.toks() == old(self).tokenizer.toks() && self.tokenizer.pos() <= self.tokenizer.toks().len() && self.bindings == old(self).bindings'),
+                       ('progress', 'self.tokenizer.pos() > old(self).tokenizer.pos()'),
+                       ('scrutinee_parsed', 'sp_expr(old(self).tokenizer.toks(), old(self).tokenizer.pos(), old(self).next_label) == Some(c0) && c0.end > old(self).tokenizer.pos() && c0.end < self.tokenizer.toks().len() && self.tokenizer.toks()[c0.end as int].token is LBrace && node_bytecode@ == code_of(c0.node)'),
+                       ('cases_so_far', f"""sp_cases_loop(self.tokenizer.toks(), {CS0}, self.bindings) == sp_cases_loop(self.tokenizer.toks(), {STATE}, self.bindings)
+                            && expressions@ =~= case_asts(cases0) && all_parts@.len() == cases0.len()
+                            && (forall|i: int| 0 <= i < cases0.len() ==> (#[trigger] all_parts@[i]).0@ == cases0[i].pcode && all_parts@[i].1@ == cases0[i].ecode)""", MATCH_PROPS)],
+            ensures=[('closing_brace_reached', f"""sp_cases_loop(self.tokenizer.toks(), {CS0}, self.bindings) == Some({STATE})
+                            && self.tokenizer.pos() < self.tokenizer.toks().len() && self.tokenizer.toks()[self.tokenizer.pos() as int].token is RBrace
+                            && range == hull(a_loc(c0.ast), self.tokenizer.toks()[self.tokenizer.pos() as int].loc)
+                            && expressions@ =~= case_asts(cases0) && all_parts@.len() == cases0.len() && node_bytecode@ == code_of(c0.node)
+                            && (forall|i: int| 0 <= i < cases0.len() ==> (#[trigger] all_parts@[i]).0@ == cases0[i].pcode && all_parts@[i].1@ == cases0[i].ecode)""", MATCH_PROPS)],
+            invariant_except_break=[('span_not_yet_closed', 'range == a_loc(c0.ast)')],
+            pre=f'let ghost acc0 = {STATE};',
+            post=f"""proof {{
+    let toks = self.tokenizer.toks();
+    assert(toks[acc0.end as int].token is Case);
+    assert(sp_pattern(toks, acc0.end + 1, acc0.lbl, self.bindings) == Some(p1));
+    assert(toks[p1.end as int].token is Colon);
+    assert(sp_expr(toks, p1.end + 1, p1.lbl) == Some(e1));
+    assert(node_details@ =~= acc0.details + p1.details + e1.details);
+    assert(sp_cases_loop(toks, acc0, self.bindings) == sp_cases_loop(toks, {STATE}, self.bindings));
+}}"""),
+               1: dict(ghost='it', invariant=[
+                   ('token_stream_untouched', 'self.tokenizer.toks() == toks1 && self.tokenizer.pos() == pos1 && self.bindings == old(self).bindings'),
+                   ('one_fresh_label_per_case_after_the_exit_label', 'self.next_label == lbl1 + 1 + it.index@ && it.seq() == parts1 && after_match_s_l == lbl1 && parts1.len() == cases0.len() && (forall|i: int| 0 <= i < cases0.len() ==> (#[trigger] parts1[i]).0@ == cases0[i].pcode && parts1[i].1@ == cases0[i].ecode)'),
+                   ('cases_assembled_in_order', 'node_bytecode@ =~= cond_code + cases_code(cases0, it.index@ as int, lbl1, (lbl1 + 1) as u32)', ('C05', 'C10'))])},
+        before={'Ok(( CompiledProg::new(NodeValue::Bytecode(node_bytecode)': '''proof {
+    assert(node_bytecode@ =~= match_code(code_of(c0.node), cases0, lbl1));
+    assert(expressions == vec_of_cases(case_asts(cases0)));
+}''',
+                'for (pattern_bytecode, expr_bytecode) in': 'let ghost toks1 = self.tokenizer.toks(); let ghost pos1 = self.tokenizer.pos(); let ghost parts1 = all_parts@;'},
+        rewrites=[('let mut all_parts = Vec::new();', 'let mut all_parts: Vec<(PreResolvedByteCode, Vec<PreResolvedCodePoint>)> = Vec::new();', 'R9: inferred type of a local made explicit'),
+                  ('[ByteCode::Pop.into()]', '[PreResolvedCodePoint::from(ByteCode::Pop)]', 'R9: the target type of `.into()` made explicit (the generic trampolines do not constrain it)'),
+                  NEQ('next', 'LBrace'), EQ('rbrace', 'RBrace'), NEQ('case_token', 'Case'), NEQ('colon_token', 'Colon'), EQ('comma_token', 'Comma')],
+        mcalls=S.MC,
+        props=MATCH_PROPS + ('C01',))
+
+
+def pattern_stub_for_x():
+    a = pattern_contract(stub=True)
+    a.ensures = a.ensures + [result_clause(f'sp_pattern({HERE_B})', (), 'ASSUMED_the_result_is_a_function_of_the_tokens')]
+    return a
+
+
+def build(x=False):
+    U = Unit('parser_matchx' if x else 'parser_match')
     U.global_rewrites.append(C.DYN_REWRITE)
     U.raw(C.HEADER, 'header')
     U.raw(C.STANDINS, 'S1 stand-ins')
@@ -115,10 +255,12 @@ def build():
     U.raw(C.TRAIT_FULL, 'CelValueDyn restated')
     U.raw('impl View for CelByteCode { type V = Seq<ByteCode>; closed spec fn view(&self) -> Seq<ByteCode> { self.inner@ } }\n' + S.core_with_full_tokenizer() + S.ITER + SPEC, 'grammar specs')
     U.raw(C.STD_SPECS, 'assumed std specs')
-    U.raw(S.axioms().replace('ax::axiom_vec_bytecode_len, ', 'ax::axiom_vec_bytecode_len, axp::axiom_point_of_bytecode, axp::axiom_point_of_point, '), 'axioms')
+    U.raw(S.axioms().replace('ax::axiom_vec_bytecode_len, ', 'ax::axiom_vec_bytecode_len, axp::axiom_point_of_bytecode, axp::axiom_point_of_point, axv::axiom_vec_of_cases, '), 'axioms')
     U.extract(C.CE, 'impl From<SyntaxError> for CelError', fns={'from': A(ret='r', ensures=[('def', 'r == CelError::Syntax(value)')], props=('C01',))})
     U.extract('rscel/src/compiler/tokenizer.rs', 'impl TokenWithLoc', fns={'token': A(ret='r', ensures=[('def', '*r == self.token')], props=('C01',))}, others='stub')
     U.extract('rscel/src/compiler/tokenizer.rs', 'impl AsToken for Option<&TokenWithLoc>', fns={
+        'as_token': A(ret='r', ensures=[('def', '(match *self { Some(s) => r == Some(&s.token), None => r is None })')], props=('C02', 'C01'))})
+    U.extract('rscel/src/compiler/tokenizer.rs', 'impl AsToken for Option<TokenWithLoc>', fns={
         'as_token': A(ret='r', ensures=[('def', '(match *self { Some(s) => r == Some(&s.token), None => r is None })')], props=('C02', 'C01'))})
     U.extract('rscel/src/compiler/tokenizer.rs', 'impl AsToken for &TokenWithLoc', fns={'as_token': A(ret='r', ensures=[('def', 'r == Some(&self.token)')], props=('C01',))})
     U.extract('rscel/src/compiler/tokenizer.rs', 'impl AsToken for TokenWithLoc', fns={'as_token': A(ret='r', ensures=[('def', 'r == Some(&self.token)')], props=('C01',))})
@@ -159,7 +301,7 @@ def build():
                                                   ('ASSUMED_no_overflow_of_the_label_counter', 'old(self).next_label < u32::MAX')]),
         'parse_conditional_or': A(stub=True, ret='r', requires=[CURSOR], ensures=[UNTOUCHED, result_clause(f'sp_or({HERE})', ())]),
         'parse_expression': A(stub=True, ret='r', requires=[CURSOR], ensures=[UNTOUCHED, result_clause(f'sp_expr({HERE})', ())]),
-        'parse_match_pattern': pattern_contract(),
+        **({'parse_match_pattern': pattern_stub_for_x(), 'parse_match_expression': match_contract()} if x else {'parse_match_pattern': pattern_contract()}),
     })
     U.raw(C.FOOTER, 'footer')
     return U
